@@ -84,7 +84,7 @@ mod phases {
         document::{self, DocumentRequest},
         error::{ErrorCode, ResponseError},
         features,
-        io::{LSCodec, Message, Response},
+        io::{Incoming, LSCodec, Message, Response},
     };
     use color_eyre::eyre::{eyre, Context, Result};
     use futures::StreamExt;
@@ -120,8 +120,8 @@ mod phases {
     ) -> Result<()> {
         while let Some(frame) = framed_read.next().await {
             let message = frame.wrap_err("Recieved frame with error")?;
-            match message {
-                Message::Request(request) => {
+            match message.into_incoming() {
+                Incoming::Call(request) => {
                     let response: Response = if request.method.as_str() == Initialize::METHOD {
                         let (params, response) = request.split();
                         let params = serde_json::from_value(params)?;
@@ -138,20 +138,20 @@ mod phases {
                     };
                     iotx.send(Message::Response(response)).await?;
                 }
-                Message::Notification(notification) => {
+                Incoming::Notification(notification) => {
                     if notification.method.as_str() == Exit::METHOD {
                         std::process::exit(1) // ungraceful exit
                     }
                 }
-                Message::Response(response) => {
+                Incoming::Response(response) => {
                     return Err(eyre!("Cannot handle responses: {:?}", response));
                 }
             };
         }
         while let Some(frame) = framed_read.next().await {
             let message = frame.wrap_err("Recieved frame with error")?;
-            match message {
-                Message::Request(request) => {
+            match message.into_incoming() {
+                Incoming::Call(request) => {
                     // Answer all incoming requests with an error
                     let (_, response) = request.split();
                     let response = response.into_error_response(ResponseError::new(
@@ -160,12 +160,12 @@ mod phases {
                     ));
                     iotx.send(Message::Response(response)).await?;
                 }
-                Message::Notification(notification) => match notification.method.as_str() {
+                Incoming::Notification(notification) => match notification.method.as_str() {
                     Initialized::METHOD => break, // Server is properly initialized and can start working
                     Exit::METHOD => std::process::exit(1), // ungraceful exit
                     _ => { /* drop all other notifications */ }
                 },
-                Message::Response(response) => {
+                Incoming::Response(response) => {
                     return Err(eyre!("Cannot handle responses: {:?}", response));
                 }
             };
@@ -180,8 +180,8 @@ mod phases {
     ) -> Result<()> {
         while let Some(frame) = framed_read.next().await {
             let message = frame.wrap_err("Recieved frame with error")?;
-            match message {
-                Message::Request(request) => {
+            match message.into_incoming() {
+                Incoming::Call(request) => {
                     let response: Response = match request.method.as_str() {
                         Initialize::METHOD => {
                             let (_, response) = request.split();
@@ -251,7 +251,7 @@ mod phases {
                     };
                     iotx.send(Message::Response(response)).await?;
                 }
-                Message::Notification(notification) => {
+                Incoming::Notification(notification) => {
                     match notification.method.as_str() {
                         DidOpenTextDocument::METHOD => {
                             note!(notification, document::open, doctx.clone());
@@ -266,7 +266,7 @@ mod phases {
                         _ => { /* drop all other notifications */ }
                     };
                 }
-                Message::Response(response) => {
+                Incoming::Response(response) => {
                     return Err(eyre!("Cannot handle responses: {:#?}", response));
                 }
             }
@@ -280,8 +280,8 @@ mod phases {
     ) -> Result<()> {
         while let Some(frame) = framed_read.next().await {
             let message = frame.wrap_err("Recieved frame with error")?;
-            match message {
-                Message::Request(request) => {
+            match message.into_incoming() {
+                Incoming::Call(request) => {
                     // Answer all incoming requests with an error
                     let (_, response) = request.split();
                     let response = response.into_error_response(ResponseError::new(
@@ -290,13 +290,13 @@ mod phases {
                     ));
                     tx.send(Message::Response(response)).await?;
                 }
-                Message::Notification(notification) => {
+                Incoming::Notification(notification) => {
                     // only waiting for exit notification
                     if notification.method.as_str() == Exit::METHOD {
                         break;
                     }
                 }
-                Message::Response(response) => {
+                Incoming::Response(response) => {
                     return Err(eyre!("Cannot handle responses {:#?}", response));
                 }
             };
